@@ -2,7 +2,7 @@
 From Coq Require Import Lia ZArith.
 From ChitchatModel Require Import Base SMap Ids Bytes Params NodeState Stream DeltaWire Message Cluster
   FD Chitchat SMap_lemmas Cluster_lemmas Chitchat_lemmas FD_lemmas Inv Compute_lemmas NodeInv
-  Prefix_lemmas Liveness_lemmas World Truth NodeTruth Weak Reach ReachFD.
+  Prefix_lemmas Liveness_lemmas World Truth NodeTruth Weak Reach ReachFD Revive.
 
 (* one classification step: the detector's sets stay disjoint (and sorted), the member is put in
    exactly one of them, nobody else moves, and a member already dead keeps the instant of the
@@ -113,3 +113,16 @@ Proof.
   split; [exact Hf|]. split; [exact Hs|]. split; [left; reflexivity|exists c; exact Hc].
 Qed.
 Print Assumptions C12_always_disjoint_and_self_live.
+
+(* "once removed it is recreated only by a heartbeat strictly higher than the one known at
+   removal", for a whole message and every message — honest, stale, duplicated, relayed or forged:
+   a member that is absent from the map and remembered with heartbeat [last] is still absent and
+   remembered after the message, unless the message's digest names it with a heartbeat strictly
+   above [last].  Deltas never create a member; equal or lower heartbeats change nothing.  (The C12
+   recreation monitor evaluates exactly this on the implementation's dumps.) *)
+Theorem C12_removed_member_recreated_only_by_higher_heartbeat : forall zc now n m ord n' reply evs i last,
+  i <> self_id n -> remembered n i last ->
+  process_message zc now n m ord = Ok (n', reply, evs) ->
+  remembered n' i last \/ exists g, In (i, g) (digest_of m) /\ last < g_hb g.
+Proof. exact removed_member_recreated_only_by_higher_heartbeat. Qed.
+Print Assumptions C12_removed_member_recreated_only_by_higher_heartbeat.
